@@ -270,7 +270,7 @@ def _n_trainable_under(model, path):
     return len(frozen_and_int_leaves(node)[2])
 
 
-def apply_freeze(model, plan, keep_some=False):
+def apply_freeze(model, plan, keep_some=False, hint=None):
     """plan: list of {"node": index into candidate_nodes(model) (mod len), "mode": "NT"|"fn"}.
     Applied sequentially; a node already inside a NonTrainable is skipped. With ``keep_some``
     a candidate that would freeze every remaining trainable leaf is replaced by the next
@@ -284,7 +284,14 @@ def apply_freeze(model, plan, keep_some=False):
         if not cands:
             break
         j = item["node"] % len(cands)
-        if keep_some:
+        if hint is not None and not applied:
+            import jax.tree_util as jtu
+
+            want = f".bijection.bijections[{hint}]"
+            hits = [k for k, c in enumerate(cands) if jtu.keystr(c) == want]
+            if hits:
+                j = hits[0]
+        elif keep_some:
             total = len(frozen_and_int_leaves(model)[2])
             for k in range(len(cands)):
                 if _n_trainable_under(model, cands[(j + k) % len(cands)]) < total:
@@ -296,10 +303,11 @@ def apply_freeze(model, plan, keep_some=False):
             import jax.tree_util as jtu
 
             # the user's INTENT: every inexact array under the node is to be frozen. Recorded as
-            # indices in leaf order (wrappers add node levels but no leaves, so order is stable)
+            # indices among the ARRAY leaves in flatten order (wrappers and chain-merging add or
+            # remove node levels and python-scalar leaves, never array leaves, so order is stable)
             pre = jtu.keystr(path)
-            idx = [i for i, (p, leaf) in enumerate(jtu.tree_flatten_with_path(model)[0])
-                   if eqx.is_inexact_array(leaf) and jtu.keystr(p).startswith(pre)]
+            arrs = [(p, leaf) for p, leaf in jtu.tree_flatten_with_path(model)[0] if eqx.is_array(leaf)]
+            idx = [i for i, (p, leaf) in enumerate(arrs) if eqx.is_inexact_array(leaf) and jtu.keystr(p).startswith(pre)]
             model = eqx.tree_at(lambda m, p=path: _get_path(m, p), model, replace_fn=fn)
             applied.append({"path": pre, "mode": item["mode"], "leaf_idx": idx})
         except Exception:  # noqa: BLE001 - un-addressable node: skip
@@ -509,10 +517,69 @@ def _share_static(spec, model):
     return model
 
 
+def apply_post_ops(model, ops):
+    """Operations a user may apply to an already-frozen model before training (a multi-step
+    history: freeze -> restructure -> train). Each keeps array-leaf order, so the intended-frozen
+    leaf indices stay valid."""
+    import equinox as eqx
+    from flowjax.bijections import Chain
+
+    done = []
+    for op in ops or []:
+        try:
+            if op == "merge_chains" and isinstance(getattr(model, "bijection", None), Chain):
+                model = eqx.tree_at(lambda m: m.bijection, model, model.bijection.merge_chains())
+                done.append(op)
+            elif op == "merge_transforms" and hasattr(model, "merge_transforms"):
+                model = model.merge_transforms()
+                done.append(op)
+        except Exception:  # noqa: BLE001 - an operation that does not apply to this model is skipped
+            continue
+    return model, done
+
+
 def build_world_model(world):
     model_plain = _share_static(world["model"], zoo.build(world["model"]))
-    model0, applied = apply_freeze(model_plain, world.get("freeze", []), keep_some=world.get("freeze_keep_some", False))
+    model0, applied = apply_freeze(model_plain, world.get("freeze", []), keep_some=world.get("freeze_keep_some", False),
+                                   hint=world.get("freeze_path_hint"))
+    if world.get("post_ops"):
+        n0 = _leaf_sig(model0)
+        before = array_leaves(model0)
+        model0, done = apply_post_ops(model0, world["post_ops"])
+        if done and _leaf_sig(model0) != n0:
+            # the operation changed the array leaves themselves: follow each intended-frozen array
+            # by its bytes, and only when that is unambiguous before and after (otherwise drop it)
+            after = array_leaves(model0)
+            key = lambda a: (a.shape, str(a.dtype), np.asarray(a).tobytes())  # noqa: E731
+            cnt_b, cnt_a = {}, {}
+            for a in before:
+                cnt_b[key(a)] = cnt_b.get(key(a), 0) + 1
+            for a in after:
+                cnt_a[key(a)] = cnt_a.get(key(a), 0) + 1
+            for f in applied:
+                new_idx = []
+                for i in f["leaf_idx"]:
+                    k = key(before[i])
+                    if cnt_b.get(k) == 1 and cnt_a.get(k) == 1:
+                        new_idx.append(next(j for j, a in enumerate(after) if key(a) == k))
+                f["leaf_idx"] = new_idx
+                f["leaf_idx_rematched"] = True
+        for f in applied:
+            f["post_ops"] = done
     return model_plain, model0, applied
+
+
+def _leaf_sig(model):
+    import jax
+
+    return [(a.shape, str(a.dtype)) for a in array_leaves(model)]
+
+
+def array_leaves(model):
+    import equinox as eqx
+    import jax
+
+    return [a for a in jax.tree_util.tree_leaves(model) if eqx.is_array(a)]
 
 
 def run_world(world):
